@@ -30,6 +30,7 @@ macro_rules! dispatch {
             "C11" => $f(&props::c11::C11, $($args),*),
             "C12" => $f(&props::c12::C12, $($args),*),
             "C18" => $f(&props::c18::C18, $($args),*),
+            "C03" => $f(&props::c03::C03, $($args),*),
             other => {
                 eprintln!("unknown property {}", other);
                 2
